@@ -166,9 +166,13 @@ def applyOp (d : DState) : List String → Option (St × Bool)
   | ["nrel", k] =>
     match k.toList with
     | [c] =>
+      -- the wake-up is only delivered when somebody is waiting at the time of the release
+      let had := (firstWaiting d.s.tasks c).isSome
       let s1 := drain d.s (d.s.tasks.length + 8)
-      let s2 := release d.cfg d.env s1 c
-      some (drain s2 (s2.tasks.length + 8), false)
+      if had then
+        let s2 := release d.cfg d.env s1 c
+        some (drain s2 (s2.tasks.length + 8), false)
+      else some (s1, false)
     | _ => none
   | _ => none
 
